@@ -424,33 +424,34 @@ Qed.
 
 (* ---------- randomised Fischlin ---------- *)
 
-Lemma rf_reps_iff H crs aall i reps sv :
-  rf_reps H crs aall i reps sv = true <->
+Lemma rf_reps_iff H len crs aall i reps sv :
+  rf_reps H len crs aall i reps sv = true <->
   forall j a e z, nth_error reps j = Some (a, e, z) ->
+    length e = len /\
     forallb (fun x => N.eqb x 0) (firstn rf_LBytes (H (rf_rep_input crs aall (i + N.of_nat j) e z))) = true /\
     sv (i + N.of_nat j) e = true.
 Proof.
   revert i. induction reps as [|[[a e] z] reps IH]; intros i; cbn [rf_reps].
   - split; [|reflexivity]. intros _ [|k] ? ? ? Hn; discriminate.
-  - rewrite !andb_true_iff, IH. split.
-    + intros ((H1 & H2) & Hall) [|j] a' e' z'; cbn [nth_error].
-      * intros [= <- <- <-]. rewrite N.add_0_r. split; assumption.
+  - rewrite !andb_true_iff, IH, Nat.eqb_eq. split.
+    + intros (((H0 & H1) & H2) & Hall) [|j] a' e' z'; cbn [nth_error].
+      * intros [= <- <- <-]. rewrite N.add_0_r. repeat split; assumption.
       * intros Hn. specialize (Hall j a' e' z' Hn).
         replace (i + N.of_nat (S j)) with (i + 1 + N.of_nat j) by lia. exact Hall.
-    + intros Hall. destruct (Hall 0%nat a e z eq_refl) as (H1 & H2).
-      rewrite N.add_0_r in H1, H2. split; [split; assumption|].
+    + intros Hall. destruct (Hall 0%nat a e z eq_refl) as (H0 & H1 & H2).
+      rewrite N.add_0_r in H1, H2. split; [repeat split; assumption|].
       intros j a' e' z' Hn. specialize (Hall (S j) a' e' z' Hn).
       replace (i + N.of_nat (S j)) with (i + 1 + N.of_nat j) in Hall by lia. exact Hall.
 Qed.
 
-(* exact acceptance condition of the randomised-Fischlin verifier.  Note what is absent:
-   there is no condition on the length of e_j — the verifier has none (finding
-   randfischlin-challenge-leading-zeros) *)
-Theorem randfischlin_accept_iff xof H c pname reps sv :
-  randfischlin_accept xof H c pname reps sv = true <->
+(* exact acceptance condition of the randomised-Fischlin verifier (with the challenge-length
+   guard of the fix for finding randfischlin-challenge-leading-zeros) *)
+Theorem randfischlin_accept_iff xof H c pname len reps sv :
+  randfischlin_accept xof H c pname len reps sv = true <->
   N.of_nat (length reps) = rf_R /\
   exists call, rf_crs_call c pname = Some call /\
     forall j a e z, nth_error reps j = Some (a, e, z) ->
+      length e = len /\
       forallb (fun x => N.eqb x 0)
         (firstn rf_LBytes (H (rf_rep_input (xof call) (flat_map (fun r => fst (fst r)) reps) (N.of_nat j) e z))) = true /\
       sv (N.of_nat j) e = true.
@@ -463,11 +464,21 @@ Proof.
   - split; [intros [_ Hf]; discriminate|]. intros [_ (call & Hc & _)]. discriminate.
 Qed.
 
-Theorem randfischlin_wrong_count xof H c pname reps sv :
-  N.of_nat (length reps) <> rf_R -> randfischlin_accept xof H c pname reps sv = false.
+Theorem randfischlin_wrong_count xof H c pname len reps sv :
+  N.of_nat (length reps) <> rf_R -> randfischlin_accept xof H c pname len reps sv = false.
 Proof.
-  intros Hne. destruct (randfischlin_accept _ _ _ _ _ _) eqn:E; [|reflexivity].
+  intros Hne. destruct (randfischlin_accept _ _ _ _ _ _ _) eqn:E; [|reflexivity].
   apply randfischlin_accept_iff in E. destruct E as [Hc _]. contradiction.
+Qed.
+
+(* a challenge of another length (e.g. with leading zero bytes) is rejected *)
+Theorem randfischlin_wrong_challenge_length xof H c pname len reps sv j a e z :
+  nth_error reps j = Some (a, e, z) -> length e <> len ->
+  randfischlin_accept xof H c pname len reps sv = false.
+Proof.
+  intros Hn Hne. destruct (randfischlin_accept _ _ _ _ _ _ _) eqn:E; [|reflexivity].
+  apply randfischlin_accept_iff in E. destruct E as [_ (call & _ & Hall)].
+  destruct (Hall j a e z Hn) as (Hl & _). contradiction.
 Qed.
 
 Definition rf_valid (c : context) (pname : bytes) : Prop :=
